@@ -240,17 +240,27 @@ CLAIMED["C09"] = dict(
     technique="Lean 4 proof (ticket-protocol invariants, stamped linearisation) + generated constants + E-SHIM trace replay + linearizability monitor",
     design="§3 C09, §4 F3")
 CLAIMED["C17"] = dict(
-    text="Lean 4 theorems over constants and guards regenerated from the tbbmalloc sources: every request 1..8128 has a bin whose object size "
+    text="Lean 4 theorems over constants and guards regenerated from the tbbmalloc sources. Front end: every request 1..8128 has a bin whose object size "
          "covers it, consistent indices, alignment of object sizes (8 / 16 / 64), objects of a slab are disjoint, inside the slab, clear of "
          "the header and aligned like their class, the aligned-allocation case split is sound for every 64-bit size and power-of-two "
          "alignment, aligned results fit and interior pointers map back, large-object placement stays inside its block incl. the 32-bit "
          "offset field, the shadow heap stays disjoint, and the slab owner/foreign-free protocol never hands out a live object under any "
-         "schedule. Tie: exhaustive white-box differential over all small sizes x alignments against the real frontend.cpp, real-library "
-         "multi-threaded histories checked by an independent shadow-heap monitor.",
-    note="Trusted: Lean kernel, standard axioms (two whole finite tables by decide +kernel), checks/cexpr.py translation of guards, harness/c17, "
-         "sampled correspondence. The back end (coalescing, bins, regions) and back-reference table are not modelled; realloc content "
-         "preservation is monitored only.",
-    technique="Lean 4 proof (arithmetic over generated constants/guards; protocol invariant) + exhaustive differential + shadow-heap monitor",
+         "schedule. Back end (one model step per serialised operation): in every reachable state the regions are exactly tiled with consistent "
+         "boundary tags, bins hold exactly the free blocks of their class, handed-out blocks are pairwise disjoint, inside one region, disjoint "
+         "from binned blocks; coalescing never touches a handed-out block; remap keeps the object's offset and prefix; calloc zero-fills on every "
+         "path. Guarded-size protocol (one step per atomic access): at most one contender wins a block under every schedule, tags restored otherwise. "
+         "Back-reference table: free-list invariant, new indices fresh, live indices keep their pointer (also across growth), getBackRef stays inside "
+         "a registered leaf, recognition through the table is sound. Tie: exhaustive white-box differential over all small sizes x alignments "
+         "against the real frontend.cpp; state-by-state differential of the real Backend and table; Lean invariants evaluated on real snapshots; "
+         "monitors after every scalable_* operation; E-SHIM trace replay of tryLockBlock/GuardedSize; real-library multi-threaded histories "
+         "checked by an independent shadow-heap monitor.",
+    note="Trusted: Lean kernel, standard axioms (two whole finite tables by decide +kernel), checks/cexpr.py + checks/c17be.py translation of guards, "
+         "harness/c17 (be.cpp emulates the OS layer over one arena), sampled correspondence. The refinement between the per-access guarded-size protocol "
+         "and the per-operation back-end model is not proved; the model's ghost preconditions are checked by the differential; large-object cache, huge "
+         "pages and MallocMutex contention are not modelled. Replays are wb / be.cpp bk, br, mm, mt scripts, gs.cpp schedules or real.cpp histories.",
+    technique="Lean 4 proof (arithmetic over generated constants/guards; back-end tiling / bins / hand-out frame invariants; guarded-size protocol invariant; "
+              "back-reference free-list invariant) + E-GEN guards + white-box state differential + snapshot validation by Lean predicates + monitors + "
+              "E-SHIM trace replay + shadow-heap monitor",
     design="§3 C17")
 CLAIMED["C18"] = dict(
     text="Lean 4 theorems over guards regenerated from the source text: calloc rejects exactly when nobj*size >= 2^64, the large-object size "
